@@ -310,6 +310,11 @@ def check_cs(case) -> Outcome:
         df = None
         fr = sorted(set(f for f in case["knot_fracs"] if 0 < f < 1))
         kwargs["knots"] = [lo + f * (hi - lo) for f in fr]
+        if case.get("knot_order") and len(fr) >= 2:
+            # explicit knots need not be given in ascending order
+            k_ = 1 + case["knot_order"] % (len(fr) - 1)
+            kwargs["knots"] = kwargs["knots"][k_:][::-1] + kwargs["knots"][:k_]
+            out.label("unsorted-knots")
         nbasis_free = len(fr) + 2 - (1 if cyclic else 0)
         if nbasis_free - ncons < 1:
             out.rejected = True
@@ -429,6 +434,7 @@ def gen_cs():
             "round": st.sampled_from([None, None, None, 1]),
             "cyclic": st.booleans(),
             "extrapolation": st.sampled_from(["raise", "clip", "na", "zero", "extend", "extend"]),
+            "knot_order": st.sampled_from([0, 0, 1, 2, 3]),
             "bounds": st.sampled_from(["data", "data", "inner", "outer", "zero"]),
             "constraints": st.sampled_from([None, None, "center", "center", "array"]),
             "df_extra": st.one_of(st.none(), st.integers(0, 5), st.integers(0, 1)),
